@@ -22,7 +22,8 @@ import py7zr
 import py7zr.helpers as H
 from py7zr.exceptions import AbsolutePathError
 
-GEN_DEPS = ["check_archive_path", "canonical_path", "remove_trailing_slash", "remove_relative_path_marker"]
+GEN_DEPS = ["check_archive_path", "canonical_path", "remove_trailing_slash", "remove_relative_path_marker",
+            "SevenZipFile._sanitize_archive_arcname"]
 LEVEL = "proof"
 TRUSTED_BASE = [
     "Coq 8.16.1 kernel, vm_compute (no native_compute); no axioms (Print Assumptions: closed)",
@@ -704,6 +705,20 @@ def check_translation(ctx, rep, rng, tier):
                     rep.violation("the function translated from helpers.%s disagrees with the Python on %r: generated %r, "
                                   "Python %r" % (fn, n, got[fn], want), {"kind": "translation", "fn": fn, "name": cps(n)},
                                   concrete=False, match_keys={"kind": "translation", "fn": fn})
+                    return
+    if "gen_sanitize_rows" in vlib.fn_table():
+        for off in range(0, len(names), 256):
+            blk = names[off:off + 256]
+            rows = model.call("gen_sanitize_rows", [cps(n) for n in blk])
+            for n, r in zip(blk, rows):
+                want = real_sanitize(n)
+                got = [r[0], from_cps(r[1]) if r[0] == 0 else None]
+                cnt += 1
+                if got != want:
+                    rep.violation("the function translated from SevenZipFile._sanitize_archive_arcname disagrees with the Python on "
+                                  "%r: generated %r, Python %r" % (n, got, want),
+                                  {"kind": "translation", "fn": "_sanitize_archive_arcname", "name": cps(n)},
+                                  concrete=False, match_keys={"kind": "translation", "fn": "_sanitize_archive_arcname"})
                     return
     segs = ["", ".", "..", "a", "a/b", "a/", "/", "//", "///", "/a", "//a", "/a/..", "../a", "a/../..", "/..", "//..",
             "b/./c", "/foo/boo", "./", "..//..", "c:", "/a//b/", "../../a/..", "a/b/../../../c"]
